@@ -22,6 +22,9 @@ run() { # name patch expect props...
 run D1 selftest/canaries/D1-block-input-port-b.diff 1 C05 C09
 run D2 selftest/canaries/D2-im1-keeps-iff2.diff 1 C06
 run D6 selftest/canaries/D6-im0-clears-iff-late.diff 1 C06
+# own canaries for obligations added after a miss / an assumed premise:
+run W1 selftest/canaries/W1-watcher-clears-request.diff 1 C08 C13   # watcher goroutine writes the CPU
+run S12 seeded/C12-im0-fixed-copy/patch.diff 1 C12                  # stale im0data contracts; caught by vsLemma_C12_Im0Total
 for f in selftest/refactors/*.diff; do
   n=$(basename "$f" .diff)
   case $n in
